@@ -101,12 +101,13 @@ theorem mapM'_mem {α β : Type} {g : α → Except E β} :
     required member (unless its type reads a missing member as `None`) and, when closed, no member
     outside the declared ones -/
 theorem struct_object_enforced (x : Ext) (σ : Space) (f : Nat) (ps : List Field) (deny : Bool)
-    (kvs : List (String × Json)) (v : Val) (h : deStruct x σ (f + 1) ps deny (.obj kvs) = .ok v) :
+    (kvs : List (String × Json)) (v : Val) (hfl : hasFlatten ps = false)
+    (h : deStruct x σ (f + 1) ps deny (.obj kvs) = .ok v) :
     (∀ p ∈ ps, (p.state matches .required) → optionLikeT σ p.ty = false → (Json.lookup kvs p.wire).isSome) ∧
     (deny = true → ∀ kv ∈ kvs, ∃ p ∈ ps, p.wire = kv.1) := by
   simp only [deStruct] at h
   split at h
-  · simp at h
+  · rename_i hc; simp [hfl] at hc
   · split at h
     · simp at h
     · rename_i hdeny
